@@ -110,6 +110,31 @@ fn compare_country(c: Country, public: &Files, school: &Files, thorough: bool, o
                 out.bad(format!("{code} {name}: first_after({q}) = {:?}, file says {want:?}", cal.first_after(q)));
             }
         }
+        // aliases of the listed dates: the same day 2^k years away (k = 7, 8, 15, 16, 17; an index or key narrowed to
+        // 8 / 16 bits wraps exactly there) and the window length away must be unlisted, wherever chrono can
+        // represent them
+        {
+            let span = match (file.iter().next(), file.iter().next_back()) {
+                (Some(a), Some(b)) => b.year() - a.year() + 1,
+                _ => 0,
+            };
+            let stride = if thorough { 1 } else { 7 };
+            for ld in file.iter().step_by(stride) {
+                for dy in [128, 256, 32_768, 65_536, 131_072, span, 2 * span] {
+                    for sign in [-1, 1] {
+                        if dy == 0 {
+                            continue;
+                        }
+                        if let Some(d) = NaiveDate::from_ymd_opt(ld.year() + sign * dy, ld.month(), ld.day().min(28)) {
+                            out.checks += 1;
+                            if cal.contains(d) != file.contains(&d) {
+                                out.bad(format!("{code} {name}: contains({d}) = {} ({} is listed, {dy} years away), file says {}", cal.contains(d), ld, file.contains(&d)));
+                            }
+                        }
+                    }
+                }
+            }
+        }
         // every listed date and its neighbours, wherever they are
         for ld in file {
             for d in [ld.pred_opt(), Some(*ld), ld.succ_opt()].into_iter().flatten() {
@@ -371,6 +396,47 @@ fn compare_repeats_and_coords(public: &Files, school: &Files, out: &mut Out) {
     }
 }
 
+/// One parsed `PH` / `SH` value localised for every country by `clone().with_context(..)` -- what an application does
+/// that parses an expression once -- and asked about the same day for one country after another: each derived
+/// value must see its own country's dates (whatever the values share through the common parse must not depend on
+/// the calendars).
+fn compare_selectors_shared_parse(public: &Files, school: &Files, thorough: bool, out: &mut Out) {
+    let empty = BTreeSet::new();
+    let countries = order("S1_first_country_first");
+    for (expr, files) in [("PH", public), ("SH", school)] {
+        let base = OpeningHours::parse(expr).expect("PH/SH parse");
+        let localised: Vec<(Country, OpeningHours)> = countries.iter().map(|c| (*c, base.clone().with_context(Context::default().with_holidays(c.holidays())))).collect();
+        // days: every day of one year (thorough: of three), plus every date some country lists in 2024..2026
+        let mut days: BTreeSet<NaiveDate> = BTreeSet::new();
+        for y in if thorough { vec![2023, 2024, 2025] } else { vec![2024] } {
+            let mut d = NaiveDate::from_ymd_opt(y, 1, 1).unwrap();
+            while d.year() == y {
+                days.insert(d);
+                d = d.succ_opt().unwrap();
+            }
+        }
+        for f in files.values() {
+            days.extend(f.iter().filter(|d| (2024..=2026).contains(&d.year())).copied());
+        }
+        for d in days {
+            for (c, oh) in &localised {
+                out.checks += 1;
+                let file = files.get(c.iso_code()).unwrap_or(&empty);
+                let open = oh.state(d.and_hms_opt(12, 0, 0).unwrap()) == RuleKind::Open;
+                if open != file.contains(&d) {
+                    out.bad(format!("{}: `{expr}` parsed once and localised per country is {} on {d}, file says listed={}", c.iso_code(), if open { "open" } else { "closed" }, file.contains(&d)));
+                    return;
+                }
+            }
+        }
+        // and the base value, which has no calendar, never sees a holiday
+        out.checks += 1;
+        if base.state(NaiveDate::from_ymd_opt(2024, 12, 25).unwrap().and_hms_opt(12, 0, 0).unwrap()) == RuleKind::Open {
+            out.bad(format!("`{expr}` without any calendar is open on 2024-12-25"));
+        }
+    }
+}
+
 fn order(name: &str) -> Vec<Country> {
     let mut v: Vec<Country> = Country::ALL.to_vec();
     v.sort_by_key(|c| c.iso_code());
@@ -426,6 +492,7 @@ fn schedule(name: &str, public: &Files, school: &Files, thorough: bool) -> (u64,
                 }
             }
             compare_codes(public, school, &mut out);
+            compare_selectors_shared_parse(public, school, thorough, &mut out);
             if name == "S1_first_country_first" {
                 compare_repeats_and_coords(public, school, &mut out);
             }
